@@ -175,10 +175,15 @@ type dumpCtx struct {
 	subject types.Object
 	key     types.Object
 	locals  map[types.Object]bool // loop variables
+	indentAlias map[types.Object]bool // locals that hold a copy of the indent
+	indentMoved bool                  // the indent changed after a copy was taken
 }
 
 // newPath forgets what local string variables held on the previous path.
-func (dc *dumpCtx) newPath() { dc.im.strEnv = map[types.Object][]strPart{} }
+func (dc *dumpCtx) newPath() {
+	dc.im.strEnv = map[types.Object][]strPart{}
+	dc.indentAlias, dc.indentMoved = nil, false
+}
 
 // stmtEvent: events of kind "local" record a local string variable and are to be skipped by the caller.
 func (dc *dumpCtx) stmtEvent(s ast.Stmt) (dumpEvent, bool) {
@@ -231,12 +236,25 @@ func (dc *dumpCtx) stmtEvent(s ast.Stmt) (dumpEvent, bool) {
 					im.strEnv[o] = im.flatten(s.Rhs[0], dc.subject, dc.key)
 					return dumpEvent{kind: "local", pos: s.Pos()}, true
 				}
+				// depth := v.indent — a local name for the current indent (valid until the indent changes; the
+				// balance rule recomputes the indent of every print from the inc/dec events, so a stale copy
+				// shows up there as a print at the wrong depth)
+				if f, ok := im.fieldOf(s.Rhs[0], dc.recv); ok && f == "indent" && o != nil && s.Tok == token.DEFINE {
+					if dc.indentAlias == nil {
+						dc.indentAlias = map[types.Object]bool{}
+					}
+					dc.indentAlias[o] = true
+					return dumpEvent{kind: "local", pos: s.Pos()}, true
+				}
 			}
 		}
 	}
 	switch s := s.(type) {
 	case *ast.IncDecStmt:
 		if f, ok := im.fieldOf(s.X, dc.recv); ok && f == "indent" {
+			if len(dc.indentAlias) > 0 {
+				dc.indentMoved = true
+			}
 			if s.Tok == token.INC {
 				return dumpEvent{kind: "inc", pos: s.Pos()}, true
 			}
@@ -271,6 +289,8 @@ func (dc *dumpCtx) stmtEvent(s ast.Stmt) (dumpEvent, bool) {
 			if tv, ok := im.info().Types[call.Args[0]]; ok && tv.Value != nil && tv.Value.ExactString() == "0" {
 				ev.indent = "0"
 			} else if f, ok := im.fieldOf(call.Args[0], dc.recv); ok && f == "indent" {
+				ev.indent = "indent"
+			} else if id, ok := unparen(call.Args[0]).(*ast.Ident); ok && dc.indentAlias[im.info().Uses[id]] && !dc.indentMoved {
 				ev.indent = "indent"
 			} else {
 				ev.indent = exprString(call.Args[0])
@@ -840,7 +860,9 @@ func (im *Impl) checkDumpStruct(roles *dumpRoles, name string, T *types.Named, o
 				// subject.F > 0 / subject.F != nil : field presence test
 				if be, ok := c.(*ast.BinaryExpr); ok {
 					if f, ok := im.fieldOf(be.X, subject); ok {
-						if !it.Truth {
+						// F > 0, F != nil: present when true; F <= 0, F == nil, F == 0: absent when true
+						presentWhenTrue := be.Op == token.GTR || be.Op == token.NEQ || be.Op == token.GEQ
+						if it.Truth != presentWhenTrue {
 							skipped[f] = true
 						}
 						continue
@@ -862,7 +884,11 @@ func (im *Impl) checkDumpStruct(roles *dumpRoles, name string, T *types.Named, o
 					}
 					cnt[ev.field]++
 					if ev.role != roles.pos {
-						if !ev.label.IsConst || ev.label.Const != ev.field {
+						want := ev.field
+						if ev.field == "Value" {
+							want = "Val" // the label the byte-value helper is given for every Value field
+						}
+						if !ev.label.IsConst || ev.label.Const != want {
 							return fmt.Sprintf("field %s dumped under label %q", ev.field, ev.label.Const)
 						}
 					}
